@@ -184,7 +184,10 @@ Proof.
   - assert (Hrl : removelast (x :: y :: t) = x :: removelast (y :: t)) by reflexivity.
     simpl in Hk. destruct Hk as [Hv Hk]. split.
     + apply visible_fpp; auto. apply Hi. rewrite Hrl. left. reflexivity.
-    + apply IH; auto; [discriminate| |].
+    + apply IH.
+      * discriminate.
+      * exact Hk.
+      * exact Hl'.
       * intros z Hz. apply Hi. rewrite Hrl. right. exact Hz.
       * intros r H. apply Hr. exact H.
 Qed.
